@@ -344,4 +344,18 @@ example :
     takesPartY Generated.C17.known ctxLinux false ["f"] true
       ⟨some (.tag (.word "linux")), [[[⟨false, .word "windows"⟩]]]⟩ = true := by decide
 
+/-- the precedence assumed by `Header` is the raw model's (the one run against buildOk in the
+    correspondence): when the comments before the package clause carry exactly one `//go:build` line and it
+    parses, the result is its value — whatever `// +build` lines, valid or malformed, stand beside it -/
+theorem gobuild_takes_precedence_raw (c : Ctx) (groups : List (List Comment)) (e : List Char) (x : BExpr)
+    (h1 : (groups.flatten.filterMap fun cm => if cm.line then splitGoBuild cm.text else none) = [e])
+    (h2 : parseGoBuild e = some x) : buildOkRaw c groups = .ok (x.evalRaw c) := by
+  unfold buildOkRaw; simp only [h1, h2]
+
+/-- … and two `//go:build` lines are an error, whatever else the header holds -/
+theorem two_gobuild_lines_raw (c : Ctx) (groups : List (List Comment)) (e1 e2 : List Char) (es : List (List Char))
+    (h1 : (groups.flatten.filterMap fun cm => if cm.line then splitGoBuild cm.text else none) = e1 :: e2 :: es) :
+    buildOkRaw c groups = .err := by
+  unfold buildOkRaw; simp only [h1]
+
 end YaegiVerif.Props.C17
